@@ -69,11 +69,17 @@ def scan(d: Path, own: List[str]) -> Tuple[List[Dict[str, Any]], List[Dict[str, 
     """(containers of the records named in `own`, their manifests, digest of everything else)."""
     disk, mfd = [], []
     other = hashlib.sha256()
-    for f in sorted(d.iterdir()):
+    alt = d / "mfalt"     # manifests the harness moved away from their conventional place (manifest_file=...)
+    conventional = {f.name for f in d.iterdir() if f.is_file()}
+    moved = [f for f in sorted(alt.iterdir()) if f.is_file() and f.name not in conventional] if alt.is_dir() else []
+    for f in sorted(d.iterdir()) + moved:
         if not f.is_file():
             continue
-        fn = parse_fn(f.name)
+        fn = parse_fn(f.name) if f.parent == d else None
         m = MF_RE.match(f.name)
+        if f.parent != d and not (m and m.group(1) in own
+                                  and container_path(d, [m.group(1), int(m.group(2) or 0)]).is_file()):
+            continue    # a moved manifest whose container is gone is nobody's
         if fn and fn[0] in own:
             disk.append(parse_container(f, fn))
         elif m and m.group(1) in own:
